@@ -3,11 +3,10 @@
 // Engine: vsched. 2-3 scheduler threads ("sessions", each with its own SessionExecutor) plan
 // 1-2 statements each against ONE shared server.Namespace / router.Router built by the real
 // NewNamespace (tables of the rule types mod, hash, range, date_month, mycat_murmur,
-// mycat_long, mycat_string). Rewritten: proxy/router/router.go, rule.go, shard_mycat.go and
-// util/murmur.go - every read / write of a field of Router, BaseRule, LinkedRule, of the mycat
+// mycat_long, mycat_string). Rewritten: proxy/router/router.go, rule.go, shard.go, shard_mycat.go
+// and util/murmur.go - every read / write of a field of Router, BaseRule, LinkedRule, of the
 // shard structs and of util.MurmurHash is an access point (scheduling point + input of the
-// happens-before race detector). shard.go cannot be rewritten by mkoverlay at present (see
-// NOTES.md). Parser and planner run un-instrumented between points.
+// happens-before race detector). Parser and planner run un-instrumented between points.
 //
 // Operations (all through the real code paths):
 //
@@ -519,13 +518,6 @@ func checkAccessList() {
 		need(rel, func(n string, _ bool) bool { return core[n] })
 	}
 	for _, rel := range []string{"proxy/router/shard.go", "proxy/router/shard_mycat.go"} {
-		if rel == "proxy/router/shard.go" && listed[rel] == nil {
-			// mkoverlay cannot rewrite shard.go at present (a comment directly after its import
-			// block ends up inside the import spec mkoverlay adds; see NOTES.md). Its shard
-			// structs (HashShard, ModShard, NumRangeShard, Date*Shard) are covered by the
-			// before/after deep dump and the plan comparison only.
-			continue
-		}
 		need(rel, func(_ string, finder bool) bool { return finder })
 	}
 	need("util/murmur.go", func(string, bool) bool { return true })
